@@ -164,7 +164,7 @@ def make_pulse_sequence(transform, values, duration, rf, offset=None):
     if values.ndim > 1:
         raise ValueError("`values` array must be 1-dimensional")
 
-    if np.max(np.abs(values)) > 1:
+    if np.max(np.abs(values)) > 1 + 1e-12:
         raise ValueError("pulse values must have a magnitude <= 1")
 
     nvalue = len(values)
@@ -247,7 +247,7 @@ def estimate_rf(values, alpha):
     values = np.asarray(values)
     # nvalue = len(values)
 
-    if np.max(np.abs(values)) > 1:
+    if np.max(np.abs(values)) > 1 + 1e-12:
         raise ValueError("pulse values must have a magnitude <= 1")
 
     # check if phase constant
